@@ -78,6 +78,7 @@ def observe_cols(res):
 TYPED = [
     {"t": "int", "n": 0}, {"t": "int", "n": 7}, {"t": "int", "n": 2024010101}, {"t": "intfloat", "n": 3}, {"t": "intfloat", "n": 1000000},
     {"t": "intfloat", "n": 2024010101}, {"t": "decimal", "s": "2.5"}, {"t": "decimal", "s": "0.1"}, {"t": "decimal", "s": "1234.5678"}, {"t": "decimal", "s": "0.001"},
+    {"t": "decimal", "s": "-1.292103456789123"}, {"t": "decimal", "s": "36.12345678901234"},   # 16 significant digits (the xlsx writer itself keeps 16)
     {"t": "bool", "b": True}, {"t": "bool", "b": False},
     {"t": "text", "s": "padded", "raw": "  padded  "}, {"t": "text", "s": "a b", "raw": f"a{NBSP}b"}, {"t": "text", "s": "x", "raw": f"{NBSP} x{NBSP}"},
     {"t": "text", "s": "007", "raw": "007"}, {"t": "text", "s": "TRUE", "raw": "TRUE"}, {"t": "text", "s": "2.50", "raw": "2.50"}, {"t": "text", "s": "tab sep", "raw": "tab sep\t"},
@@ -130,8 +131,9 @@ def deliver(wb, f, d, ft, tmpdir, stem="data"):
             if rows and all(any(h in r for r in rows) for h in cols):
                 del d0[k]
         return d0, {}, None
-    data = {"md": render.to_md, "csv": render.to_csv, "xls": render.to_xls, "xlsx": render.to_xlsx, "xlsm": render.to_xlsx}[f](wb)
+    data = {"md": render.to_md, "csv": render.to_csv, "csv_ragged": render.to_csv_ragged, "xls": render.to_xls, "xlsx": render.to_xlsx, "xlsm": render.to_xlsx}[f](wb)
     raw = data.encode("utf-8") if isinstance(data, str) else data
+    f = "csv" if f == "csv_ragged" else f
     kw = {"file_type": "." + f} if ft else {}
     if d == "str":
         return data, kw, None
